@@ -215,6 +215,11 @@ def rule_P2(ctx):
         sep = (neg, touched)
     ok = sep is not None and not sep[0] and sep[1] == {rx.SP, rx.WS, rx.DASH}
     ctx.ob("P2", rg, "the separator before L/R is a non-empty run of blanks and hyphens", ok, f"{sep}", inst="separator", file=ST, qualname="Image")
+    # the stem is whatever precedes the separator run: any characters at all (a stem may end in `#`, `.`, `)`), and as few of them as
+    # possible - a greedy stem would keep all but the last separator character, so that `A  -L` pairs under the stem `A  ` / `A -`
+    ok = len(gs) == 3 and rx.is_lazy_any_star(gs[0][1]) and rx.ends_at_end(t) and gs[0][2] == 0
+    ctx.ob("P2", rg, "the stem group is the shortest prefix (any characters, possibly none) in front of the separator run, matched from the start to the end of the name", ok, pat,
+           inst="stem-shortest-any", file=ST, qualname="Image")
     m = [a for a in own_nodes(fn) if isinstance(a, ast.Assign) and norm(a.targets[0]) == "match"]
     ok = len(m) == 1 and norm(m[0].value) == "self._STEREO_FILENAME.match(name)"
     ctx.ob("P2", fn, "pairing is decided on the sample's export name", ok, "", inst="match-on-name")
@@ -304,8 +309,15 @@ def rule_P3(ctx):
         detc = "" if ok else (f"field(s) {missing} of the left sample are not carried over: the merged sample falls back to the class defaults" if missing else f"field(s) {wrong} do not come from the left sample")
         if ok:
             ok = rec.get("data_streams") in (f"{l}.data_streams + {r}.data_streams", f"list({l}.data_streams) + list({r}.data_streams)", f"[*{l}.data_streams, *{r}.data_streams]")
+    if ok and rec.get("__public_only__"):
+        # only the fields with public names are copied by the loop: every other field of Sample has to be handed over by name
+        from ..core.terms import DC_FIELDS as _dcf2
+        priv = [f_ for f_ in (_dcf2.get("Sample") or ()) if f_.startswith("_")]
+        lost = [f_ for f_ in priv if rec.get(f_) is None]
+        ok = bool(_dcf2.get("Sample")) and not lost
+        detc = "" if ok else f"field(s) {lost} of the left sample are not carried over (the copy takes public fields only): the merged sample loses its place in the tree / its names"
     ctx.ob("P3", fn, "the result starts as a shallow copy of every field of the left sample (its stream list is a new list)", ok, detc, inst="copy-left")
-    ok = rec.get("num_channels") in ("len(result.data_streams)", f"len({l}.data_streams + {r}.data_streams)") and rec.get("channel_config") == "ChannelConfig.STEREO_SPLIT_STREAMS"
+    ok = rec.get("num_channels") in (f"len({rec.get('__var__', 'result')}.data_streams)", f"len({l}.data_streams + {r}.data_streams)") and rec.get("channel_config") == "ChannelConfig.STEREO_SPLIT_STREAMS"
     ctx.ob("P3", fn, "channel count = number of combined streams", ok, "" if ok else f"num_channels={rec.get('num_channels')}, channel_config={rec.get('channel_config')}", inst="num-channels")
     ok = "num_channels" in order and "data_streams" in order and (order.index("num_channels") > order.index("data_streams") or bool(rec.get("__explicit__")))
     ctx.ob("P3", fn, "the channel count is taken after the right streams were added", ok, f"{order}", inst="count-after-add")
@@ -720,6 +732,20 @@ def rule_P5(ctx):
     rc = return_canons(gn)
     a0, a1 = gn.args.args[0].arg, gn.args.args[1].arg
     ok = rc in ([f"max(1, {a1} // {a0}.frame_size)"], [f"max({a1} // {a0}.frame_size, 1)"])
+    if not ok:
+        # the same maximum written as a choice: q where q > 1 (or >= 1), 1 otherwise
+        q = Term.atom(f"floordiv({a1},{a0}.frame_size)")
+        gps = [p_ for p_ in run_paths(ctx, gn, rule="P5") if p_.end == "return"]
+        ok = bool(gps) and all(p_.ret is not None for p_ in gps)
+        for p_ in gps if ok else ():
+            cs_ = path_conds_struct(ctx, gn, p_)
+            one, big = Term.const(1), p_.ret == q
+            if big and (cond_taken(cs_, q - one, ">") or cond_taken(cs_, q - one, ">=")):
+                continue
+            if p_.ret == one and (cond_taken(cs_, q - one, "<=") or cond_taken(cs_, q - one, "<")):
+                continue
+            ok = False
+        ok = ok and len(gps) == 2
     ctx.ob("P5", gn, "frames per block = max(1, target // frame_size)", ok, f"{rc}", inst="frames-possible")
     gb = ctx.fn(TR, "get_buffer_sizes", "P5")
     rc = return_canons(gb)
@@ -764,7 +790,11 @@ def rule_P5(ctx):
         ok = norm(lam[0].body) in (f"decode_frame({pv_}, buffer_sizes=buffer_sizes)", f"decode_frame({pv_}, buffer_sizes)")
     ctx.ob("P5", mt, "the pipeline decoder reads with those block sizes", ok, "", inst="decode-lambda")
     pl = [c for c in own_nodes(mt) if isinstance(c, ast.Call) and norm(c.func) == "PipelineTranscoder"]
-    ok = len(pl) == 1 and norm(pl[0].args[0]) == mt.args.args[0].arg
+    ok = len(pl) == 1
+    if ok:
+        from .util import call_parts as _cp5
+        _f, _pos, _kw = _cp5(evaluator(ctx, mt, {}).ev(pl[0]).key())  # keywords folded into their positions by the constructor's signature
+        ok = (_pos[0] if _pos else _kw.get("data_streams")) == mt.args.args[0].arg
     ctx.ob("P5", mt, "the pipeline transcoder works on all data streams", ok, "", inst="pipeline-streams")
     ctx.ob("P5", mt, "pass-through is used only for a single stream already in the destination encoding", okc_ and n_pt >= 1 and n_pl >= 1, detc_, inst="passthrough-cond")
     # channel count check
